@@ -3894,6 +3894,13 @@ func (c *Compiler) setWasmGlobalValue(index wasm.Index, v ssa.Value) {
 		store.AsStore(ssa.OpcodeStore, v, loadGlobalInstPtr.Return(), uint32(0))
 		builder.InsertInstruction(store)
 
+		// The same global instance can be imported more than once (or under two export names), so the
+		// values recorded for the other imported mutable globals might be stale now.
+		for _, other := range c.mutableGlobalVariablesIndexes {
+			if other != index && other < c.m.ImportGlobalCount {
+				_ = c.getWasmGlobalValue(other, true)
+			}
+		}
 	} else {
 		store := builder.AllocateInstruction()
 		store.AsStore(ssa.OpcodeStore, v, c.moduleCtxPtrValue, uint32(opaqueOffset))
